@@ -1,7 +1,8 @@
 /-
   GV.Proofs.HeapSim — value semantics: under the ownership invariant the JS heap semantics (`runJS`, references
-  + `$clone` where the clone table says so) prints exactly what Go's value semantics (`runGo`) prints; and the
-  two contexts of the real table `cloneAt` where it does not (`box`, `rangeOperand`).
+  + `$clone` where the clone table says so) prints exactly what Go's value semantics (`runGo`) prints — at full
+  strength for the translator's table `cloneAt`; the four contexts where the table did not copy before the repairs
+  (`box`, `rangeOperand`, `boundCall`, `ifaceCall`) are kept as theorems about `cloneAtBeforeRepair`.
 -/
 import GV.Proofs.HeapOwn
 
@@ -240,41 +241,35 @@ theorem value_semantics_partial (tbl : Ctx → Bool) (prog : List Stmt) (h : ∀
 
 /-! ### the real clone table -/
 
-/-- the clone table of the real translator satisfies the premise for every new-location context except `box`
-    and `rangeOperand` -/
-theorem cloneAt_newLocation (c : Ctx) (h : c.kind = .newLocation) (h1 : c ∉ nonCloning) :
-    cloneAt c = true := by
-  revert h h1; cases c <;> decide
+/-- the clone table of the translator copies at EVERY new-location context -/
+theorem cloneAt_newLocation (c : Ctx) (h : c.kind = .newLocation) : cloneAt c = true := by
+  revert h; cases c <;> decide
 
 def wfStmt : Stmt → Prop
   | .bind c _ => c.kind = .newLocation
   | .store c x _ e => c.kind = .inPlace ∧ e.var ≠ x
   | _ => True
 
-/-- `wfStmt` without the two non-cloning new-location contexts -/
-def wfStmtStrict : Stmt → Prop
-  | .bind c _ => c.kind = .newLocation ∧ c ∉ nonCloning
-  | .store c x _ e => c.kind = .inPlace ∧ e.var ≠ x
-  | _ => True
-
-theorem stmtOK_of_strict (s : Stmt) (h : wfStmtStrict s) : stmtOK cloneAt s := by
+theorem stmtOK_of_wf (s : Stmt) (h : wfStmt s) : stmtOK cloneAt s := by
   cases s with
-  | bind c e => exact cloneAt_newLocation c h.1 h.2
+  | bind c e => exact cloneAt_newLocation c h
   | store c x p e => exact h.2
   | _ => trivial
 
-/-- for the real table: value semantics and ownership hold for all programs that do not box an array/struct
-    into an interface and do not range over an array operand -/
-theorem value_semantics_cloneAt (prog : List Stmt) (h : ∀ s ∈ prog, wfStmtStrict s) :
+/-- FULL STRENGTH, for the real table: the JS run and the Go run of every well-formed program agree -/
+theorem value_semantics (prog : List Stmt) (h : ∀ s ∈ prog, wfStmt s) :
     runJS cloneAt prog = runGo prog :=
-  value_semantics_partial cloneAt prog (fun s hs => stmtOK_of_strict s (h s hs))
+  value_semantics_partial cloneAt prog (fun s hs => stmtOK_of_wf s (h s hs))
 
-theorem no_sharing_cloneAt (prog : List Stmt) (h : ∀ s ∈ prog, wfStmtStrict s) :
+theorem no_sharing_cloneAt (prog : List Stmt) (h : ∀ s ∈ prog, wfStmt s) :
     Owned (prog.foldl (stepJS cloneAt) JState.init) :=
-  no_sharing cloneAt prog (fun s hs => stmtOK_of_strict s (h s hs))
+  no_sharing cloneAt prog (fun s hs => stmtOK_of_wf s (h s hs))
 
-def value_semantics_full : Prop :=
-  ∀ prog : List Stmt, (∀ s ∈ prog, wfStmt s) → runJS cloneAt prog = runGo prog
+/-! ### repaired defects: the table before the repairs -/
+
+/-- the statement that was false of the old table -/
+def value_semantics_before_repair : Prop :=
+  ∀ prog : List Stmt, (∀ s ∈ prog, wfStmt s) → runJS cloneAtBeforeRepair prog = runGo prog
 
 /-- `x := S{}; x.f = 1; var i interface{} = x; x.f = 2; print(i)` -/
 def cexBox : List Stmt :=
@@ -283,35 +278,6 @@ def cexBox : List Stmt :=
 /-- `var a [2]int; a[1] = 7; for … range a { (_ref = a) ; a[1] = 9; print(_ref) }` -/
 def cexRange : List Stmt :=
   [.decl (.array 2 .int), .setLeaf 0 [1] 7, .bind .rangeOperand (.loc 0 []), .setLeaf 0 [1] 9, .dump 1]
-
-theorem cexBox_wf : ∀ s ∈ cexBox, wfStmt s := by
-  intro s hs
-  simp only [cexBox, List.mem_cons, List.not_mem_nil, or_false] at hs
-  rcases hs with rfl | rfl | rfl | rfl | rfl <;> simp [wfStmt, Ctx.kind]
-
-theorem cexRange_wf : ∀ s ∈ cexRange, wfStmt s := by
-  intro s hs
-  simp only [cexRange, List.mem_cons, List.not_mem_nil, or_false] at hs
-  rcases hs with rfl | rfl | rfl | rfl | rfl <;> simp [wfStmt, Ctx.kind]
-
-theorem cexBox_js : runJS cloneAt cexBox = [[2]] := by decide
-theorem cexBox_go : runGo cexBox = [[1]] := by decide
-theorem cexRange_js : runJS cloneAt cexRange = [[0, 9]] := by decide
-theorem cexRange_go : runGo cexRange = [[0, 7]] := by decide
-
-/-- boxing a struct into an interface does not copy it: JS prints `[2]`, Go prints `[1]` -/
-theorem value_semantics_counterexample : ¬ value_semantics_full := by
-  intro h
-  have := h cexBox cexBox_wf
-  rw [cexBox_js, cexBox_go] at this
-  exact absurd this (by decide)
-
-/-- the same failure through the `range` operand (`_ref = X` without a copy) -/
-theorem value_semantics_counterexample_range : ¬ value_semantics_full := by
-  intro h
-  have := h cexRange cexRange_wf
-  rw [cexRange_js, cexRange_go] at this
-  exact absurd this (by decide)
 
 /-- `f := x.m; f(); f()` where `m` mutates its value receiver: the second call sees the first call's mutation -/
 def cexBound : List Stmt :=
@@ -323,6 +289,16 @@ def cexIface : List Stmt :=
   [.decl (.struct [.int]), .setLeaf 0 [0] 1, .bind .define (.loc 0 []), .bind .ifaceCall (.loc 1 []),
    .setLeaf 2 [0] 9, .bind .ifaceCall (.loc 1 []), .dump 3]
 
+theorem cexBox_wf : ∀ s ∈ cexBox, wfStmt s := by
+  intro s hs
+  simp only [cexBox, List.mem_cons, List.not_mem_nil, or_false] at hs
+  rcases hs with rfl | rfl | rfl | rfl | rfl <;> simp [wfStmt, Ctx.kind]
+
+theorem cexRange_wf : ∀ s ∈ cexRange, wfStmt s := by
+  intro s hs
+  simp only [cexRange, List.mem_cons, List.not_mem_nil, or_false] at hs
+  rcases hs with rfl | rfl | rfl | rfl | rfl <;> simp [wfStmt, Ctx.kind]
+
 theorem cexBound_wf : ∀ s ∈ cexBound, wfStmt s := by
   intro s hs
   simp only [cexBound, List.mem_cons, List.not_mem_nil, or_false] at hs
@@ -333,22 +309,44 @@ theorem cexIface_wf : ∀ s ∈ cexIface, wfStmt s := by
   simp only [cexIface, List.mem_cons, List.not_mem_nil, or_false] at hs
   rcases hs with rfl | rfl | rfl | rfl | rfl | rfl | rfl <;> simp [wfStmt, Ctx.kind]
 
-theorem cexBound_js : runJS cloneAt cexBound = [[9]] := by decide
+theorem cexBox_js : runJS cloneAtBeforeRepair cexBox = [[2]] := by decide
+theorem cexBox_go : runGo cexBox = [[1]] := by decide
+theorem cexRange_js : runJS cloneAtBeforeRepair cexRange = [[0, 9]] := by decide
+theorem cexRange_go : runGo cexRange = [[0, 7]] := by decide
+theorem cexBound_js : runJS cloneAtBeforeRepair cexBound = [[9]] := by decide
 theorem cexBound_go : runGo cexBound = [[1]] := by decide
-theorem cexIface_js : runJS cloneAt cexIface = [[9]] := by decide
+theorem cexIface_js : runJS cloneAtBeforeRepair cexIface = [[9]] := by decide
 theorem cexIface_go : runGo cexIface = [[1]] := by decide
 
-theorem value_semantics_counterexample_boundCall : ¬ value_semantics_full := by
+theorem before_repair_box : ¬ value_semantics_before_repair := by
+  intro h
+  have := h cexBox cexBox_wf
+  rw [cexBox_js, cexBox_go] at this
+  exact absurd this (by decide)
+
+theorem before_repair_range : ¬ value_semantics_before_repair := by
+  intro h
+  have := h cexRange cexRange_wf
+  rw [cexRange_js, cexRange_go] at this
+  exact absurd this (by decide)
+
+theorem before_repair_boundCall : ¬ value_semantics_before_repair := by
   intro h
   have := h cexBound cexBound_wf
   rw [cexBound_js, cexBound_go] at this
   exact absurd this (by decide)
 
-theorem value_semantics_counterexample_ifaceCall : ¬ value_semantics_full := by
+theorem before_repair_ifaceCall : ¬ value_semantics_before_repair := by
   intro h
   have := h cexIface cexIface_wf
   rw [cexIface_js, cexIface_go] at this
   exact absurd this (by decide)
+
+/-- with the repaired table the same four programs behave as in Go -/
+theorem after_repair_witnesses :
+    runJS cloneAt cexBox = runGo cexBox ∧ runJS cloneAt cexRange = runGo cexRange ∧
+    runJS cloneAt cexBound = runGo cexBound ∧ runJS cloneAt cexIface = runGo cexIface :=
+  ⟨value_semantics _ cexBox_wf, value_semantics _ cexRange_wf, value_semantics _ cexBound_wf, value_semantics _ cexIface_wf⟩
 
 /-- a non-trivial program meeting the premise of `value_semantics_partial` for the real table (nested
     struct/array, define, argument passing, in-place store of a sub-array, leaf writes) -/
